@@ -1,6 +1,7 @@
 import LiquidModel.Drv.Codec
 import LiquidModel.Drv.Render
 import LiquidModel.Drv.FilterOp
+import LiquidModel.Drv.C04
 import LiquidModel.Drv.C05
 import LiquidModel.Drv.C06
 import LiquidModel.Drv.C07
@@ -20,6 +21,7 @@ open C11 C12 C13 C14 C15 C16 C17
 def dispatch (op : String) : Option (List String → String) :=
   match op with
   | "render" => some (renderOp baseFilters)
+  | "c04" => some c04Op
   | "c05" => some c05Op
   | "c06" => some c06Op
   | "lit" => some litOp
